@@ -73,6 +73,8 @@ SSem(e) ==
     [] e.ev = "exists"  -> Exists(D(e, 1), e.a[2])
     [] e.ev = "compose" -> Compose(D(e, 1), e.a[2], D(e, 3))
     [] e.ev = "cnf"     -> EvalCnf(e.cnf)
+    [] e.ev = "expr"    -> EvalExpr(e.expr)
+    [] e.ev = "plan"    -> EvalExpr(e.expr)
 
 (* semantic builders: the logged hash of every result must be a function of its denotation *)
 SemHashOK(e, d) ==
@@ -90,7 +92,7 @@ SProduce(e) ==
   /\ e.res \in 2 .. (K - 1)
   /\ \A i \in 1 .. Len(nn) : nn[i][1] = Len(node) + i
   \* C03 / C05 / C11(semantic builder): the function
-  /\ Req(IF semantic THEN "C11" ELSE IF e.ev = "cnf" THEN "C05" ELSE "C03", d = SSem(e))
+  /\ Req(IF semantic THEN "C11" ELSE IF e.ev \in {"cnf", "expr", "plan"} THEN "C05" ELSE "C03", d = SSem(e))
   \* C04: every new node is well formed, unique, and results are canonical
   /\ IF strict
        THEN Req("C04", /\ \A i \in 1 .. Len(nn) : WellFormed(nd2, nn[i]) /\ Content(nn[i]) \notin contents
